@@ -14,12 +14,15 @@ MAX_UNROLL = 16
 
 
 def run(nz, body, fi):
+    body = lower_match(nz, body, fi)
+    body = hoist_walrus(nz, body, fi)
     touched = fi.qname in nz.log
     body = Fold(nz).block(body)
     body = lower_dispatch(nz, body, fi)
     body = unroll(nz, body, fi)
     body = sroa(nz, body, fi)
     body = elem_alias(nz, body, fi)
+    body = attr_alias(nz, body, fi)
     body = Fold(nz).block(body)
     body = copyprop(nz, body, fi, touched or getattr(nz, "_local_touched", False))
     if touched or getattr(nz, "_local_touched", False):
@@ -53,6 +56,149 @@ def map_blocks(stmts, f):
                 c.body = map_blocks(c.body, f) or [ast.Pass()]
         out.append(s)
     return f(out)
+
+
+# ---------------------------------------------------------------------------------------------- match -> if/elif
+
+def _pattern_test(subj, pat):
+    """(test expr or True for irrefutable, [(name, value expr)] captures) or None when the pattern is not a literal one"""
+    if isinstance(pat, ast.MatchValue):
+        return ast.Compare(left=copy.deepcopy(subj), ops=[ast.Eq()], comparators=[pat.value]), []
+    if isinstance(pat, ast.MatchSingleton):
+        return ast.Compare(left=copy.deepcopy(subj), ops=[ast.Is()], comparators=[ast.Constant(value=pat.value)]), []
+    if isinstance(pat, ast.MatchAs):
+        if pat.pattern is None:
+            return True, ([(pat.name, subj)] if pat.name else [])
+        r = _pattern_test(subj, pat.pattern)
+        if r is None:
+            return None
+        return r[0], r[1] + ([(pat.name, subj)] if pat.name else [])
+    if isinstance(pat, ast.MatchOr):
+        tests = []
+        for p in pat.patterns:
+            r = _pattern_test(subj, p)
+            if r is None or r[1]:
+                return None
+            if r[0] is True:
+                return True, []
+            tests.append(r[0])
+        if all(isinstance(t, ast.Compare) and isinstance(t.ops[0], ast.Eq) and isinstance(t.comparators[0], ast.Constant) for t in tests):
+            return ast.Compare(left=copy.deepcopy(subj), ops=[ast.In()], comparators=[ast.Tuple(elts=[t.comparators[0] for t in tests], ctx=ast.Load())]), []
+        return ast.BoolOp(op=ast.Or(), values=tests), []
+    return None
+
+
+def lower_match(nz, body, fi):
+    """`match subject:` over literal / wildcard / capture patterns is an if/elif chain on `subject == literal`"""
+    if not has_node(body, ast.Match, nested=True):
+        return body
+
+    def f(stmts):
+        out = []
+        for s in stmts:
+            if not isinstance(s, ast.Match):
+                out.append(s)
+                continue
+            subj = s.subject
+            pre = []
+            if not is_atom(subj):
+                if not is_pure(subj):
+                    out.append(s)
+                    continue
+            arms = []
+            ok = True
+            for c in s.cases:
+                r = _pattern_test(subj, c.pattern)
+                if r is None:
+                    ok = False
+                    break
+                test, caps = r
+                if caps and c.guard is not None:
+                    ok = False
+                    break
+                if c.guard is not None:
+                    test = c.guard if test is True else ast.BoolOp(op=ast.And(), values=[test, c.guard])
+                capst = [ast.copy_location(ast.Assign(targets=[ast.Name(id=n, ctx=ast.Store())], value=copy.deepcopy(v), lineno=c.pattern.lineno), c.pattern)
+                         for n, v in caps]
+                arms.append((test, capst + c.body))
+            if not ok:
+                out.append(s)
+                continue
+            chain = []
+            for test, b in reversed(arms):
+                if test is True:
+                    chain = b
+                else:
+                    node = ast.copy_location(ast.If(test=test, body=b, orelse=chain), s)
+                    ast.fix_missing_locations(node)
+                    chain = [node]
+            out.extend(pre + chain)
+            nz._local_touched = True
+            nz.log.setdefault(fi.qname, []).append(f"match statement at line {getattr(s, 'lineno', '?')} lowered to if/elif")
+        return out
+    return map_blocks(body, f)
+
+
+def hoist_walrus(nz, body, fi):
+    """`if (x := E) ...:` where the assignment expression is the first thing the statement evaluates: `x = E; if x ...:`"""
+    if not has_node(body, ast.NamedExpr, nested=True):
+        return body
+
+    def spine(e):
+        """the NamedExpr evaluated first and unconditionally in e, with a setter replacing it"""
+        if isinstance(e, ast.NamedExpr):
+            return e, None
+        if isinstance(e, ast.BoolOp):
+            r = spine(e.values[0])
+            return (r[0], (e.values, 0) if r[1] is None else r[1]) if r else None
+        if isinstance(e, ast.Compare):
+            r = spine(e.left)
+            return (r[0], (e, "left") if r[1] is None else r[1]) if r else None
+        if isinstance(e, ast.UnaryOp):
+            r = spine(e.operand)
+            return (r[0], (e, "operand") if r[1] is None else r[1]) if r else None
+        if isinstance(e, ast.Attribute):
+            r = spine(e.value)
+            return (r[0], (e, "value") if r[1] is None else r[1]) if r else None
+        if isinstance(e, ast.Subscript):
+            r = spine(e.value)
+            return (r[0], (e, "value") if r[1] is None else r[1]) if r else None
+        if isinstance(e, ast.Call):
+            if isinstance(e.func, ast.Attribute):
+                r = spine(e.func.value)
+                return (r[0], (e.func, "value") if r[1] is None else r[1]) if r else None
+            if isinstance(e.func, ast.Name) and e.args and not isinstance(e.args[0], ast.Starred):
+                r = spine(e.args[0])
+                return (r[0], (e.args, 0) if r[1] is None else r[1]) if r else None
+        return None
+
+    def f(stmts):
+        out = []
+        for s in stmts:
+            fld = "test" if isinstance(s, (ast.If, ast.Assert)) else "value" if isinstance(s, (ast.Assign, ast.Expr, ast.Return, ast.AugAssign)) and getattr(s, "value", None) is not None \
+                else "iter" if isinstance(s, ast.For) else None
+            done = False
+            if fld:
+                e = getattr(s, fld)
+                r = spine(e)
+                if r and isinstance(r[0].target, ast.Name):
+                    ne, setter = r
+                    a = ast.copy_location(ast.Assign(targets=[ast.Name(id=ne.target.id, ctx=ast.Store())], value=ne.value, lineno=s.lineno), s)
+                    repl = ast.copy_location(ast.Name(id=ne.target.id, ctx=ast.Load()), ne)
+                    if setter is None:
+                        setattr(s, fld, repl)
+                    elif isinstance(setter[0], list):
+                        setter[0][setter[1]] = repl
+                    else:
+                        setattr(setter[0], setter[1], repl)
+                    out.extend([a, s])
+                    nz._local_touched = True
+                    nz.log.setdefault(fi.qname, []).append(f"assignment expression `{ne.target.id} := ...` hoisted at line {getattr(s, 'lineno', '?')}")
+                    done = True
+            if not done:
+                out.append(s)
+        return out
+    return map_blocks(body, f)
 
 
 # ---------------------------------------------------------------------------------------------- fold
@@ -135,6 +281,35 @@ class Fold(ast.NodeTransformer):
             n.body, n.orelse = n.orelse, []
         if isinstance(n.test, ast.Constant) and getattr(n, "_sa_inl", False):
             return (n.body if n.test.value else n.orelse) or None
+        return n
+
+    def visit_Assign(self, n):
+        n = self.generic_visit(n)
+        # a.f = x = E : x = E; a.f = x   (one evaluation of E, same objects bound)
+        if len(n.targets) > 1:
+            names = [t for t in n.targets if isinstance(t, ast.Name)]
+            if names and not any(isinstance(x, ast.Name) and x.id == names[0].id for t in n.targets if t is not names[0] for x in ast.walk(t)):
+                first = ast.copy_location(ast.Assign(targets=[names[0]], value=n.value, lineno=n.lineno), n)
+                rest = [ast.copy_location(ast.Assign(targets=[t], value=ast.copy_location(ast.Name(id=names[0].id, ctx=ast.Load()), n), lineno=n.lineno), n)
+                        for t in n.targets if t is not names[0]]
+                self.nz._local_touched = True
+                self.nz.log.setdefault(self.nz.cur.qname, []).append(f"chained assignment at line {getattr(n, 'lineno', '?')} split")
+                return [first] + rest
+        # a, b = x, y with independent pure right-hand sides: two assignments
+        if len(n.targets) == 1 and isinstance(n.targets[0], (ast.Tuple, ast.List)) and isinstance(n.value, (ast.Tuple, ast.List)) \
+                and len(n.targets[0].elts) == len(n.value.elts) and all(isinstance(t, ast.Name) for t in n.targets[0].elts) \
+                and not any(isinstance(v, ast.Starred) for v in n.value.elts) and all(is_pure(v) for v in n.value.elts):
+            tn = {t.id for t in n.targets[0].elts}
+            if len(tn) == len(n.targets[0].elts) and not any(isinstance(x, ast.Name) and x.id in tn for v in n.value.elts for x in ast.walk(v)):
+                out = []
+                for t, v in zip(n.targets[0].elts, n.value.elts):
+                    a = ast.copy_location(ast.Assign(targets=[t], value=v, lineno=n.lineno), n)
+                    if getattr(n, "_sa_inl", False):
+                        a._sa_inl = True
+                    out.append(a)
+                self.nz._local_touched = True
+                self.nz.log.setdefault(self.nz.cur.qname, []).append(f"tuple assignment at line {getattr(n, 'lineno', '?')} split")
+                return out
         return n
 
     def visit_Expr(self, n):
@@ -800,6 +975,129 @@ def elem_alias(nz, body, fi):
             return body
         nz._local_touched = True
         nz.log.setdefault(fi.qname, []).append(f"element attribute alias `{x}` resolved at line {getattr(a, 'lineno', '?')}")
+    return body
+
+
+def _callees(nz, f):
+    """qualified names of the repository functions a call in ``f`` may reach (resolved targets; an unresolved method call
+    reaches every repository function of that name)"""
+    out = set()
+    try:
+        ft = nz.world.types(f)
+    except Exception:
+        ft = None
+    by_name = nz._by_name
+    for n in ast.walk(f.node):
+        if not isinstance(n, ast.Call):
+            continue
+        tgs = []
+        if ft is not None:
+            try:
+                tgs = nz.world.resolve_call(ft, n)
+            except Exception:
+                tgs = []
+        hit = False
+        for t in tgs:
+            if t.func is not None:
+                out.add(t.func.qname)
+                hit = True
+            elif t.kind in ("ext", "builtin", "method", "class"):
+                hit = True
+                if t.kind == "builtin" and t.name in ("setattr", "delattr"):
+                    out.add("*")
+        if not hit:
+            nm = n.func.attr if isinstance(n.func, ast.Attribute) else n.func.id if isinstance(n.func, ast.Name) else None
+            if nm:
+                out |= by_name.get(nm, set())
+                if nm in ("setattr", "delattr"):
+                    out.add("*")
+    return out
+
+
+def _may_store(nz):
+    """attribute name (leading underscores dropped) -> qualified names of the repository functions that may assign it,
+    transitively over the resolved call graph"""
+    if getattr(nz, "_may_store", None) is not None:
+        return nz._may_store
+    funcs = {q: f for q, f in nz.prog.funcs.items() if not q.startswith("tests.")}
+    nz._by_name = {}
+    for q, f in funcs.items():
+        nz._by_name.setdefault(f.name, set()).add(q)
+    direct: Dict[str, set] = {}
+    calls: Dict[str, set] = {}
+    for q, f in funcs.items():
+        for n in ast.walk(f.node):
+            if isinstance(n, ast.Attribute) and isinstance(n.ctx, (ast.Store, ast.Del)):
+                direct.setdefault(n.attr.lstrip("_"), set()).add(q)
+        calls[q] = _callees(nz, f)
+        if "*" in calls[q]:
+            direct.setdefault("*", set()).add(q)
+    out = {}
+    for a, fs in direct.items():
+        reach = set(fs)
+        changed = True
+        while changed:
+            changed = False
+            for q, cs in calls.items():
+                if q not in reach and cs & reach:
+                    reach.add(q)
+                    changed = True
+        out[a] = reach
+    nz._calls = calls
+    nz._may_store = out
+    return out
+
+
+def attr_alias(nz, body, fi):
+    """x = a.b.c bound once, where nothing the function does or calls can re-bind .b / .c: read a.b.c where x is read
+    (a hoisted local; substituting it back gives one normal form for rules that look at what is read)"""
+    if not any(isinstance(n, ast.Assign) and len(n.targets) == 1 and isinstance(n.targets[0], ast.Name) and isinstance(n.value, ast.Attribute)
+               for n in walk_stmts(body, nested=False)):
+        return body
+    ms = _may_store(nz)
+    star = ms.get("*", set())
+    called = set(nz._calls.get(fi.qname, set())) if fi.qname in nz._calls else _callees(nz, fi)
+    # calls that arrived by dissolving helpers
+    for n in walk_stmts(body):
+        if isinstance(n, ast.Call) and getattr(n, "_sa_inl_call", False):
+            pass
+    extra = set()
+    for q in list(nz.inlined_sites):
+        if q in nz.prog.funcs:
+            extra |= nz._calls.get(q, set())
+    called |= extra
+    if called & star or "*" in called:
+        return body
+    local_attr_stores = {n.attr.lstrip("_") for n in walk_stmts(body) if isinstance(n, ast.Attribute) and isinstance(n.ctx, (ast.Store, ast.Del))}
+    for a in [n for n in walk_stmts(body, nested=False) if isinstance(n, ast.Assign)]:
+        if not (len(a.targets) == 1 and isinstance(a.targets[0], ast.Name) and isinstance(a.value, ast.Attribute) and is_atom(a.value)):
+            continue
+        x = a.targets[0].id
+        if x in fi.params or single_assignment(body, x) is not a or _in_nested_scope_use(body, x):
+            continue
+        chain = []
+        e = a.value
+        while isinstance(e, ast.Attribute):
+            chain.append(e.attr.lstrip("_"))
+            e = e.value
+        if not isinstance(e, ast.Name) or store_count(body, e.id, fi.params) > 1:
+            continue
+        if e.id == x:
+            continue
+        if any(c in local_attr_stores for c in chain):
+            continue
+        if any(called & ms.get(c, set()) for c in chain):
+            continue
+        if name_loads(body, x) == 0:
+            continue
+        v = a.value
+
+        def rewrite(stmts):
+            return [s for s in stmts if s is not a]
+        body = map_blocks(body, rewrite)
+        body = [Subst({}, {x: v}).visit(s) for s in body]
+        nz._local_touched = True
+        nz.log.setdefault(fi.qname, []).append(f"attribute alias `{x}` = {norm(v)} resolved at line {getattr(a, 'lineno', '?')}")
     return body
 
 
